@@ -234,7 +234,20 @@ func (g *VCGen) beforeClauses(c *ssa.CallCommon, pos token.Pos, instr ssa.Instru
 	} else if key := dynCallKey(c.Value); key != "" {
 		name = key[strings.LastIndex(key, ".")+1:]
 	}
-	g.beforeNamed(name, pos, instr)
+	// callarg0, callarg1, ...: the arguments of the call (receiver first)
+	extra := map[string]SpecVal{}
+	if !c.IsInvoke() {
+		for i, a := range c.Args {
+			if _, isAddr := g.addrs[a]; isAddr {
+				continue
+			}
+			func() {
+				defer func() { recover() }()
+				extra[fmt.Sprintf("callarg%d", i)] = g.val(a)
+			}()
+		}
+	}
+	g.beforeNamed(name, pos, instr, extra)
 }
 
 // beforeNamed: obligations "before <name>: E" evaluated in the state just before the instruction
@@ -466,6 +479,11 @@ func (g *VCGen) applyContract(fc *FuncContract, pkg *types.Package, names []stri
 		g.assumeHere(g.allocFact(name, t, post))
 	}
 	penv := &SpecEnv{g: g, vars: env.vars, cur: post, old: pre, pkg: pkg, results: results, resNames: resNames}
+	if g.inRunDefers {
+		penv.panicking = "false" // deferred calls run here because the function returns normally
+	} else {
+		penv.panicking = g.freshConst("callee!panicking", "Bool")
+	}
 	// atlock(e) in the callee's postcondition speaks about a state inside the call (right after it took its lock):
 	// for the caller that is some state that differs from the pre-state at most in what the callee may modify
 	if !fc.HasPreserves {
@@ -611,6 +629,11 @@ func (g *VCGen) builtin(b *ssa.Builtin, c *ssa.CallCommon, pos token.Pos, v *ssa
 		return nil
 	case "print", "println":
 		return nil
+	case "recover":
+		// recover() yields a non-nil value exactly when the function whose deferred call this is is panicking
+		rv := g.freshConst("recover!v", "Iface")
+		g.assume(fmt.Sprintf("(and (= (not (= %s nilIface)) %s) (= (= (if.tag %s) 0) (= %s nilIface)))", rv, g.panickingConst(), rv, rv))
+		return []SpecVal{{rv, "Iface", c.Signature().Results().At(0).Type()}}
 	case "ssa:wrapnilchk":
 		a := g.val(c.Args[0])
 		g.nilCheck(c.Args[0], a.T, pos)
@@ -690,7 +713,7 @@ func (g *VCGen) copyBuiltin(c *ssa.CallCommon, pos token.Pos, v *ssa.Call) SpecV
 }
 
 func stdlibPure(path string) bool {
-	for _, p := range []string{"strings", "strconv", "fmt", "errors", "time", "os", "log", "math", "math/rand", "bytes", "sort", "unicode", "unicode/utf8", "path/filepath", "io"} {
+	for _, p := range []string{"strings", "strconv", "fmt", "errors", "time", "os", "log", "math", "math/rand", "bytes", "sort", "unicode", "unicode/utf8", "path/filepath", "io", "runtime/debug", "net/rpc"} {
 		if path == p {
 			return true
 		}
